@@ -31,11 +31,12 @@ STYLES = [
     ("shift1", Style(pre_blank=1, blank_between=2)),
     ("shift3", Style(pre_blank=3, blank_between=0, semicolon="mixed")),
     ("crlf", Style(crlf=True)),
+    ("trailing-comments", Style(trailing_comments=True)),
     ("indent2", Style(indent="  ")),
     ("indent0", Style(indent="")),
     ("tab", Style(indent="\t")),
 ]
-CONFORMING_STYLES = {"conforming", "semicolons", "shift1", "shift3", "crlf"}
+CONFORMING_STYLES = {"conforming", "semicolons", "shift1", "shift3", "crlf", "trailing-comments"}
 
 
 def variants(tier):
